@@ -275,6 +275,40 @@ func classifyC06(r *rig, res *scnResult, fs []nodeFinal, best *nodeFinal, t *tre
 		}
 	}
 	if s.Engine == "legacy" {
+		// F4d: handleCheckSyncPeer compares topBlock() != tip height; once the service is AHEAD of the height its sync
+		// peer advertised in its version message (blocks announced since), the three-minute watchdog takes that for
+		// "behind", disconnects the up-to-date sync peer, and later announcements of that peer are lost.
+		for _, e := range r.events {
+			if !strings.HasPrefix(e.Step, "tick") {
+				continue
+			}
+			for _, f := range fs {
+				if f.Honest && f.ClosedByService && strings.Contains(" ; "+e.Observed+" ;", fmt.Sprintf(" ; disc %d ;", f.ID)) &&
+					tipHeightOf(t, res.TipHash) > int64(s.Nodes[f.ID].Pos) {
+					return "c06-sync-peer-dropped-after-passing-its-advertised-height",
+						fmt.Sprintf("the watchdog disconnected sync peer node %d although the service (height %d) had every block that peer ever offered: the peer advertised height %d in its version message and the comparison topBlock() != tip height treats being ahead as being behind", f.ID, tipHeightOf(t, res.TipHash), s.Nodes[f.ID].Pos)
+				}
+			}
+		}
+	}
+	if s.Engine == "exp" {
+		// the experimental engine ignores every inv (syncedCheckpoints is never set): a block announced by inv before
+		// the engine has asked for headers announcements is never fetched
+		for _, f := range fs {
+			if !f.Honest || !f.Reachable {
+				continue
+			}
+			for _, e := range f.Hist {
+				if e.Sent && e.Kind == "inv" && len(e.Idx) > 0 {
+					if _, have := t.by[r.tree.disp[e.Idx[len(e.Idx)-1]]]; !have {
+						return "c06-exp-inv-announcement-ignored",
+							fmt.Sprintf("node %d announced block #%d by inv (the engine had not sent sendheaders yet); the experimental engine ignores every inv because syncedCheckpoints is never set, and isSynced compares with the height of the version message, so the block is never requested", f.ID, e.Idx[len(e.Idx)-1])
+					}
+				}
+			}
+		}
+	}
+	if s.Engine == "legacy" {
 		// F4c: the service has every block of its sync peer, another connected candidate advertises a heavier chain,
 		// and the sync peer is kept (startSync only runs without a sync peer; handleCheckSyncPeer returns when
 		// topBlock == tip height; invs of other peers are ignored while below the last checkpoint).
@@ -472,7 +506,18 @@ func genLinear(rng *rand.Rand, o genOpts, engine string) *scn {
 		s.Nodes[lossy].Honest = false
 	}
 	order := rng.Perm(nNodes)
-	if rng.Intn(2) == 0 {
+	midsync := future > 0 && s.Sched == "serial" && rng.Intn(4) == 0
+	if midsync {
+		// a block is announced WHILE the initial sync is running: a few replies, the announcement, the rest
+		for _, i := range order {
+			s.Steps = append(s.Steps, scnStep{Kind: "connect", Node: i})
+		}
+		for k := rng.Intn(3); k > 0; k-- {
+			s.Steps = append(s.Steps, scnStep{Kind: "serve", Node: order[rng.Intn(nNodes)]})
+		}
+		future--
+		s.Steps = append(s.Steps, scnStep{Kind: "announce", Node: full, How: "inv", N: 1}, scnStep{Kind: "run"})
+	} else if rng.Intn(2) == 0 {
 		for _, i := range order {
 			s.Steps = append(s.Steps, scnStep{Kind: "connect", Node: i})
 		}
@@ -688,12 +733,12 @@ func runC06(c *Ctx) error {
 	replayKnownC06(c, "C06", oracleC06)
 	rng := lib.Rng(c.Seed, "c06-scenarios")
 	o := genOpts{MaxLen: 40}
-	budget := 55 * time.Second
-	count := 160
+	budget := 60 * time.Second
+	count := 900
 	if c.Thorough {
 		o = genOpts{MaxLen: 60, BigLen: 3000}
 		budget = 12 * time.Minute
-		count = 2500
+		count = 12000
 	}
 	start := time.Now()
 	rigErrs := 0
